@@ -3,3 +3,6 @@ import PycommProps.C03
 #print axioms Pycomm.C03.client_unpacks_packed
 #print axioms Pycomm.C03.plan_partition
 #print axioms Pycomm.C03.plan_no_empty_group
+#print axioms Pycomm.C03.multi_e2e
+#print axioms Pycomm.C03.multi_reply_count
+#print axioms Pycomm.C03.multi_isolation
